@@ -41,6 +41,8 @@ def mlen(m, y):
 def main():
     c = Check('C19')
     c.prove()
+    if c.tier == 'thorough':
+        c.coqchk()
     build_driver(['c19'])
     build_harness(['owrun'])
     rng = c.rng
